@@ -9,7 +9,7 @@
     (27 codes x 64 codons, 27 x 17^3 alphabet words, 15 IUPAC symbols x 2 moltypes x 2
     implementations), everything about sequences is by induction over sequences of ANY length. *)
 From CG3 Require Import Lib.PyZ Lib.Val Model.GeneticCode Spec.GeneticCodeSpec Proofs.GeneticCodeProofs
-  Proofs.GeneticCodeCollProofs Proofs.GeneticCodeDegenProofs.
+  Proofs.GeneticCodeDegenDefs Proofs.GeneticCodeCollProofs Proofs.GeneticCodeDegenProofs.
 From CG3gen Require Import GCTables.
 
 (* ------------------------------------------------------------------ the tables *)
@@ -238,6 +238,15 @@ Theorem alignment_translation_rows_equal_length : forall tbl trim inc wss n peps
   alignment_spec tbl trim inc wss = Some peps ->
   Forall (fun p => length p = n) peps /\ length peps = length wss.
 Proof. exact alignment_spec_lengths. Qed.
+
+(** ... and every row is the Sequence-level translation ([stop_spec], the same function as for
+    Sequence and SequenceCollection) of that row's residues, with "-" kept where the row has gap
+    triplets and where its trimmed stop codon was: all entry points agree on the residues *)
+Theorem alignment_row_is_sequence_level : forall id aa st eff inc ws,
+  In (id, aa, st) new_codes -> row_wf ws ->
+  option_map drop_gaps (aln_row_spec (ncbi_tbl id) eff inc ws)
+  = stop_spec (ncbi_tbl id) eff inc true (row_residues ws).
+Proof. exact aln_row_is_sequence_level. Qed.
 
 (** the regular expression of trim_stop_codons on a row of aligned triplets *)
 Theorem alignment_regex_is_last_codon : forall id aa st ws,
